@@ -5,7 +5,7 @@
    Requests with several commits (bulk writes; import before write) are sequences of sub-requests
    (exec_multi): theorems C11_per_commit_all_or_nothing .. C11_bulk_documents_independent. *)
 From Coq Require Import Permutation.
-From SG Require Import Base.Prelude C11.Atomicity C11.AtomicityProofs C11.MultiProofs.
+From SG Require Import Base.Prelude C11.Atomicity C11.AtomicityProofs C11.MultiProofs C11.CleanupProofs.
 From SG Require Import C05.WriteLoop C05.WriteLoopProofs C05.WriteLoopTheorems.
 Open Scope N_scope.
 
@@ -16,14 +16,17 @@ Proof. intros tr k H. exact (success_iff_committed tr 0 k sys0 H). Qed.
 Print Assumptions C11_success_iff_committed.
 
 (* failure of any storage operation -- a single one, a pair, any set -- of which at least one lies at or before
-   the commit on an operation that is not best-effort: error reported, primary state unchanged *)
+   the commit on an operation that is not best-effort (a best-effort write, or a clean-up delete: their failure is
+   swallowed; the read of a body to promote: its failure is swallowed too -- the finding in C11_Refuted.v): error
+   reported, primary state unchanged *)
 Theorem C11_fault_upto_commit_unchanged : forall tr k n,
   commit_index tr = Some n ->
-  (exists f, In f k /\ (f <= n)%nat /\ nth_error tr f <> Some Opt) ->
+  (exists f, In f k /\ (f <= n)%nat /\
+             nth_error tr f <> Some Opt /\ nth_error tr f <> Some Cleanup /\ nth_error tr f <> Some ReadBody) ->
   snd (run_request tr k) = RErr /\ committed (fst (run_request tr k)) = false.
 Proof.
-  intros tr k n Hc (f & Hin & Hle & Ho). apply (fault_upto_commit_unchanged tr 0 k sys0 n eq_refl Hc).
-  exists f. repeat split; auto; try lia. rewrite Nat.sub_0_r. exact Ho.
+  intros tr k n Hc (f & Hin & Hle & Ho & Hcl & Hrb). apply (fault_upto_commit_unchanged tr 0 k sys0 n eq_refl Hc).
+  exists f. split; [exact Hin|]. split; [lia|]. split; [exact Hle|]. rewrite Nat.sub_0_r. intros [H|[H|H]]; congruence.
 Qed.
 Print Assumptions C11_fault_upto_commit_unchanged.
 
@@ -127,13 +130,75 @@ Proof. exact exec_faults_local. Qed.
 Print Assumptions C11_faults_are_local.
 
 (* ---- follow-ups that are part of the visible effect (principal invalidation) ---- *)
-(* success means the WHOLE effect is visible, provided no fault hits a required follow-up; with such a fault the
-   statement is false for the unchanged code (C11_Refuted.v) *)
+(* success means the WHOLE effect is visible, provided no fault hits a required follow-up or the read of a body to
+   promote; with such a fault the statement is false for the unchanged code (C11_Refuted.v) *)
 Theorem C11_success_whole_effect_visible : forall tr k, no_posterr tr ->
-  (forall f, In f k -> nth_error tr f <> Some Inval) ->
+  (forall f, In f k -> nth_error tr f <> Some Inval /\ nth_error tr f <> Some ReadBody) ->
   snd (run_request tr k) = ROk -> effect_visible (fst (run_request tr k)) = true.
 Proof. exact success_effect_visible. Qed.
 Print Assumptions C11_success_whole_effect_visible.
+
+(* ---- auxiliary documents (out-of-line revision bodies, attachments) are part of the state ---- *)
+(* "a failed request changes no document, auxiliary documents included": with the clean-up deletes bound to the
+   commit (no [Cleanup] operation before it -- tested on every observed trace), a request that reports a failure,
+   whatever set of storage operations failed, has neither committed nor deleted any auxiliary document that the
+   stored state references *)
+Theorem C11_failed_request_deletes_nothing : forall tr k,
+  cleanup_after_commit tr -> no_posterr tr -> snd (run_request tr k) = RErr ->
+  committed (fst (run_request tr k)) = false /\ cleaned (fst (run_request tr k)) = [].
+Proof. exact failed_request_deletes_nothing. Qed.
+Print Assumptions C11_failed_request_deletes_nothing.
+
+(* ... also when a follow-up failure is reported as a request failure: as long as the commit was not performed,
+   nothing was deleted; in particular a rejected request (no commit operation) deletes nothing *)
+Theorem C11_uncommitted_request_deletes_nothing : forall tr k,
+  cleanup_after_commit tr ->
+  (committed (fst (run_request tr k)) = false -> cleaned (fst (run_request tr k)) = []) /\
+  (commit_index tr = None -> cleaned (fst (run_request tr k)) = []).
+Proof.
+  intros tr k Hw. split; [apply uncommitted_deletes_nothing; exact Hw | apply rejected_deletes_nothing; exact Hw].
+Qed.
+Print Assumptions C11_uncommitted_request_deletes_nothing.
+
+(* only a clean-up operation that was actually performed deletes anything: a faulted clean-up deletes nothing and
+   no other operation class does (any trace, any faults) *)
+Theorem C11_only_performed_cleanups_delete : forall tr k j,
+  In j (cleaned (fst (run_request tr k))) -> nth_error tr j = Some Cleanup /\ existsb (Nat.eqb j) k = false.
+Proof.
+  intros tr k j Hj. destruct (cleaned_only_performed tr 0 k sys0 j Hj) as [[] | (_ & Hn & Hk)].
+  rewrite Nat.sub_0_r in Hn. auto.
+Qed.
+Print Assumptions C11_only_performed_cleanups_delete.
+
+(* requests with several commits (bulk write, import before write): every sub-request that did not commit --
+   failed, rejected, or never started because an earlier one failed -- deleted nothing *)
+Theorem C11_multi_failed_deletes_nothing : forall cont trs k,
+  Forall cleanup_after_commit trs ->
+  Forall (fun m => committed (fst m) = false -> cleaned (fst m) = []) (run_multi cont trs k).
+Proof. intros cont trs k H. exact (multi_uncommitted_deletes_nothing cont trs 0 k false H). Qed.
+Print Assumptions C11_multi_failed_deletes_nothing.
+
+(* the rule the run-time test [cleanup_after_commitb] decides *)
+Theorem C11_cleanup_rule_decided : forall tr, cleanup_after_commitb tr = true <-> cleanup_after_commit tr.
+Proof. exact cleanup_after_commitb_spec. Qed.
+Print Assumptions C11_cleanup_rule_decided.
+
+Example C11_cleanup_nonvacuous :
+  cleanup_after_commit [Aux; Read; Opt; Aux; Aux; Commit; Cleanup; Inval] /\
+  no_posterr [Aux; Read; Opt; Aux; Aux; Commit; Cleanup; Inval] /\
+  (* the final write fails: error, nothing committed, nothing deleted *)
+  run_request [Aux; Read; Opt; Aux; Aux; Commit; Cleanup; Inval] [5%nat] = (add_aux 4 (add_aux 3 (add_aux 0 sys0)), RErr) /\
+  (* no fault: the clean-up is performed after the commit *)
+  cleaned (fst (run_request [Aux; Read; Opt; Aux; Aux; Commit; Cleanup; Inval] [])) = [6%nat] /\
+  (* a clean-up NOT bound to the commit deletes although the request fails *)
+  (exists tr k, commit_index tr = None /\ snd (run_request tr k) = RErr /\
+                committed (fst (run_request tr k)) = false /\ aux_deleted (fst (run_request tr k)) = true).
+Proof.
+  split; [apply cleanup_after_commitb_spec; reflexivity|].
+  split; [repeat constructor; discriminate|].
+  split; [vm_compute; reflexivity|]. split; [vm_compute; reflexivity|].
+  exact cleanup_before_commit_deletes_on_failure.
+Qed.
 
 Example C11_multi_nonvacuous :
   segs_survive [[Aux; Read; Aux; Commit]] 0 [6%nat] /\ seg_fails [Opt; Opt; Aux; Commit] 4 [6%nat] /\
@@ -142,7 +207,8 @@ Example C11_multi_nonvacuous :
 Proof.
   split; [|split].
   - cbn. split; [|exact I]. split; [repeat constructor; discriminate|]. exists 3%nat. split; [reflexivity|]. intros f [<-|[]]. lia.
-  - right. exists 7%nat. split; [reflexivity|]. exists 6%nat. cbn. repeat split; auto; try lia. discriminate.
+  - right. exists 7%nat. split; [reflexivity|]. exists 6%nat. cbn. repeat split; auto; try lia.
+    intros [H|[H|H]]; discriminate.
   - vm_compute. reflexivity.
 Qed.
 
